@@ -286,6 +286,7 @@ func init() {
 	register(&Prop{
 		ID: "C01",
 		Rule: "cases = boundary catalogue (secret length/content classes x counter boundaries x digit values x hash values) + seeded random, with arbitrary values in the Param fields generation does not use (Skew, Period), each run through GenerateHOTP and compared with an independent RFC 4226 model; histories on one goroutine (field-shifted neighbours, keys differing in one byte / one byte of length, walks over adjacent counters); the js/wasm build's own copy of the derivation (DeriveRFC4226Wasm, compiled natively through an overlay) for digits -3..300 x hashes 0..4 and random supported cases; " +
+			"a reduced differential against the same reference models also runs in a binary built for GOARCH=386 (32-bit int/uint; observed.evaluations_on_a_32bit_build); " +
 			"distinct_nontrivial counts distinct (key,counter,digits,hash) tuples with supported parameters whose exact code was compared, distinct unsupported (digits,hash) classes that must be refused, and distinct (31-bit value,digits) pairs pushed through the formatting stage via a substituted HMAC output",
 		Run: func(c *Ctx) {
 			b := newBatcher(c, judgeHOTP, 0)
@@ -297,6 +298,7 @@ func init() {
 			c01NeighbourHistory(c)
 			c01CounterWalk(c)
 			c01WasmTwin(c)
+			runArch386(c)
 			// hooked: key and message actually fed to the HMAC
 			if hooks.Available() {
 				checkHMACInputsHOTP(c)
